@@ -360,7 +360,9 @@ Inductive op :=
 | Skip
 | NbhdMask (nb : list coord)          (* get_neighborhood_mask(...); nb = the neighbourhood the grid reports (an outcome) *)
 | Aggregate (r : lref) (kind : Z)     (* layer.aggregate(np.sum / np.max / np.min / np.mean) *)
-| ProbeDtype (ldt : Z) (fm : oform) (f : fop) (vdt : Z).
+| ProbeDtype (ldt : Z) (fm : oform) (f : fop) (vdt : Z)
+| LayerSelect (r : lref) (cd : cond) (aslist : bool).
+     (* PropertyLayer.select_cells(condition, return_list): the condition applied to the layer's own array *)
      (* on a fresh layer of dtype ldt: the dtype modify_cells leaves behind for an operand of dtype vdt *)
 
 Definition mk_layer (n dt : Z) (dims : list Z) (v : Z) : layer :=
@@ -661,6 +663,15 @@ Definition step (st : state) (o : op) : state * res :=
       | None => (st, RSkip)
       end
   | ProbeDtype ldt fm f vdt => (st, ROk [dtype_result ldt fm f vdt])
+  | LayerSelect r cd aslist =>
+      match resolve st r with
+      | Some id =>
+          match get_obj st id with
+          | Some L => (st, ROk (select_obs (map (fun kx => (fst kx, eval_cond cd (snd kx))) (l_data L)) aslist))
+          | None => (st, RSkip)
+          end
+      | None => (st, RSkip)
+      end
   end.
 
 (* ---- the observation of the whole state, taken after every operation ---- *)
